@@ -54,13 +54,21 @@ COA_UP2 = dict(type="course-of-action", spec_version="2.1", id=UPID, created=T1,
 RID = "x-verif-obj--" + U + "6"
 R1 = dict(type="x-verif-obj", spec_version="2.1", id=RID, created=T1, modified=T1, prop="r1")
 R2 = dict(type="x-verif-obj", spec_version="2.1", id=RID, created=T1, modified=T2, prop="r2")
-IDS = [A, SCO["id"], OLD20["id"], MD["id"], XID, RID, T5ID, I1ID, "campaign--" + U + "9", CU["id"], UPID, NCID]
+# STIX 2.0 content that is custom: a 2.0 object with a custom property, and an unregistered type written the 2.0 way (no spec_version) - alone they make a store
+# that holds nothing of 2.1
+OLD20X = dict(type="campaign", id="campaign--3f7f0c5f-5d54-4292-94ea-ec1e1952be1e", created=T1, modified=T1, name="old20x", x_note="custom")
+U20ID = "x-unreg--3f7f0c5f-5d54-4292-94ea-ec1e1952be1f"
+U20 = dict(type="x-unreg", id=U20ID, created=T1, modified=T1, name="u20")
+# two versions of a REGISTERED custom object inside one millisecond (2.1 keeps the digits)
+R3US = dict(type="x-verif-obj", spec_version="2.1", id=RID, created=T1, modified="2020-01-02T00:00:00.000400Z", prop="r3us")
+R4US = dict(type="x-verif-obj", spec_version="2.1", id=RID, created=T1, modified="2020-01-02T00:00:00.000800Z", prop="r4us")
+IDS = [A, SCO["id"], OLD20["id"], MD["id"], XID, RID, T5ID, I1ID, "campaign--" + U + "9", CU["id"], UPID, NCID, OLD20X["id"], U20ID]
 TYPES = ["campaign", "ipv4-addr", "marking-definition", "x-unreg", "x-verif-obj", "tool", "identity", "malware", "course-of-action"]
 
 
 # queries by a timestamp given as TEXT in another spelling than the one the stores write (a timestamp filter compares instants).  Objects the stores keep as plain
 # dictionaries are left out on both sides: for them the comparison is textual, which is C12's listed finding (string-timestamp-filter-vs-dict-kept-object).
-DICT_KEPT = {XID, NCID, CU["id"]}
+DICT_KEPT = {XID, NCID, CU["id"], U20ID}
 TS_QUERIES = [("modified = T1 written without fraction", "modified", "=", "2020-01-01T00:00:00Z"), ("modified = T3 written .5Z", "modified", "=", "2020-01-03T00:00:00.5Z"),
               ("modified >= T2 written with six digits", "modified", ">=", "2020-01-02T00:00:00.000000Z"), ("modified < T2 written without fraction", "modified", "<", "2020-01-02T00:00:00Z"),
               ("modified <= T3 written .50Z", "modified", "<=", "2020-01-03T00:00:00.50Z"), ("created = T1 written .0Z", "created", "=", "2020-01-01T00:00:00.0Z")]
@@ -112,12 +120,14 @@ def EVENTS():
         # bundles as ELEMENTS of a list (object and dict form) next to a plain object
         "list-of-bundles": (lambda: [stix2.v21.Bundle(O(V1)), bundle_dict(V3), O(SCO)], [V1, V3, SCO]),
         "list-of-bundle-dict": (lambda: [bundle_dict(V2, C1)], [V2, C1]),
+        "old20x-dict": (lambda: copy.deepcopy(OLD20X), [OLD20X]), "u20-dict": (lambda: copy.deepcopy(U20), [U20]),
+        "reg3us-dict": (lambda: copy.deepcopy(R3US), [R3US]), "reg4us-obj": (lambda: O(R4US), [R4US]),
         "tool5a": (lambda: O(TOOL5A), [TOOL5A]), "tool5b-dict": (lambda: copy.deepcopy(TOOL5B), [TOOL5B]), "ident1": (lambda: O(IDENT1), [IDENT1]),
     }
 
 
 QUICK_EVENTS = ["v1-obj", "v2-obj", "v3-obj", "v1-dict", "v2-dict-6digits", "v3-list", "v1v3-bundle-obj", "v2-bundle-dict", "v1-text", "v2x-obj",
-                "sco", "old20-dict", "md", "reg2-dict", "c0", "c1", "c2", "mix-list", "c3", "c4-text", "tool5a", "tool5b-dict", "v3us-obj", "cu", "coa-upper1", "v2-loadfile", "v1v3-loadfile", "c2-loadfile", "nc1", "nc2", "list-of-bundles", "list-of-bundle-dict"]
+                "sco", "old20-dict", "md", "reg2-dict", "c0", "c1", "c2", "mix-list", "c3", "c4-text", "tool5a", "tool5b-dict", "v3us-obj", "cu", "coa-upper1", "v2-loadfile", "v1v3-loadfile", "c2-loadfile", "nc1", "nc2", "list-of-bundles", "list-of-bundle-dict", "old20x-dict", "u20-dict", "reg3us-dict", "reg4us-obj"]
 ALL_EVENTS = QUICK_EVENTS + ["reg1", "ident1", "coa-upper2-dict", "nc12-bundle"]
 
 
@@ -234,7 +244,7 @@ def observe(store, part, what):
 
 def feature_of(id_):
     return {A: "versioned-sdo", SCO["id"]: "unversioned-sco", OLD20["id"]: "v20-sdo", MD["id"]: "marking-definition", XID: "unregistered-dict",
-            RID: "registered-custom", T5ID: "uuid5-id", I1ID: "uuid1-id", CU["id"]: "unversioned-unregistered-dict", UPID: "upper-case-hex-id", NCID: "dict-without-created"}.get(id_, "absent-id")
+            RID: "registered-custom", OLD20X["id"]: "v20-sdo-with-custom-property", U20ID: "unregistered-dict-without-spec_version", T5ID: "uuid5-id", I1ID: "uuid1-id", CU["id"]: "unversioned-unregistered-dict", UPID: "upper-case-hex-id", NCID: "dict-without-created"}.get(id_, "absent-id")
 
 
 def compare(sname, obs, model, part, case, conflicted):
